@@ -31,6 +31,9 @@ pub enum Pop {
     /// seq-mixed histories with extreme weights (2^31, u32::MAX) and capacities (2^32 .. u64::MAX):
     /// the arithmetic of the weight accounting (C08 overflow, C04, C10).
     SeqHuge,
+    /// Adversarial hasher for the popularity sketch (HashMode::SketchSpread): sketch
+    /// capacities just above a power of two, hundreds of keys looked up once each.
+    SeqSketch,
 }
 
 impl Pop {
@@ -45,6 +48,7 @@ impl Pop {
             "seq-long" => Pop::SeqLong,
             "seq-wide" => Pop::SeqWide,
             "seq-huge" => Pop::SeqHuge,
+            "seq-sketch" => Pop::SeqSketch,
             _ => return None,
         })
     }
@@ -59,6 +63,7 @@ impl Pop {
             Pop::SeqLong => "seq-long",
             Pop::SeqWide => "seq-wide",
             Pop::SeqHuge => "seq-huge",
+            Pop::SeqSketch => "seq-sketch",
         }
     }
     pub fn stream(&self) -> u64 {
@@ -72,6 +77,7 @@ impl Pop {
             Pop::SeqLong => 7,
             Pop::SeqWide => 8,
             Pop::SeqHuge => 9,
+            Pop::SeqSketch => 10,
         }
     }
 }
@@ -466,6 +472,9 @@ pub fn generate(pop: Pop, seed: u64, run: u64) -> Trace {
         }
         return t;
     }
+    if pop == Pop::SeqSketch {
+        return generate_sketch(seed, run);
+    }
     let sub = mix(seed, pop.stream(), run);
     let mut rng = Prng::new(sub);
     let cfg = gen_config(&mut rng, pop);
@@ -752,5 +761,98 @@ pub fn generate(pop: Pop, seed: u64, run: u64) -> Trace {
             run,
             population: pop.name().to_string(),
         }),
+    }
+}
+
+/// `seq-sketch`: the arithmetic of the popularity sketch's aging step under a hasher that
+/// spreads keys perfectly over its counters. The sketch is sized from `max_capacity`
+/// (129..=250: a 256-word table, aging after `10 * max_capacity` counted lookups); it is
+/// switched on once the cache is half full; then several hundred keys are looked up once each
+/// (their counters become odd), others an even number of times (parities unchanged), in
+/// random order and mixed with ordinary traffic, until aging has run at least once.
+fn generate_sketch(seed: u64, run: u64) -> Trace {
+    let pop = Pop::SeqSketch;
+    let mut rng = Prng::new(mix(seed, pop.stream(), run));
+    let kind = if rng.chance(1, 2) { Kind::Unsync } else { Kind::Sync };
+    let cap = *rng.pick(&[129u64, 129, 130, 136, 150, 160, 180, 200, 250]);
+    let cfg = Config {
+        kind,
+        cap: Some(cap),
+        weigher: false,
+        ttl: None,
+        tti: if rng.chance(1, 6) { Some(3600 * SEC) } else { None },
+        hasher: HashMode::SketchSpread,
+        init_cap: None,
+        shards: None,
+        wlock_sp: false,
+    };
+    let mut ops: Vec<OpRec> = Vec::new();
+    let mut next_vid = 1u32;
+    let sync_every = kind == Kind::Sync && rng.chance(1, 2);
+    // fill at least half of the capacity (keys outside the crafted range)
+    let fill = rng.range(cap / 2 + 1, cap) as u16;
+    for i in 0..fill {
+        ops.push(OpRec::plain(Op::Insert { k: 2000 + i, vid: next_vid, w: 1 }));
+        next_vid += 1;
+        if kind == Kind::Sync && (sync_every || rng.chance(1, 20)) {
+            ops.push(OpRec::plain(Op::Sync));
+        }
+    }
+    if kind == Kind::Sync {
+        ops.push(OpRec::plain(Op::Sync));
+    }
+    // lookups: `once` crafted keys once each, then pairs, shuffled a little
+    let once = rng.range(300, crate::types::SPREAD_KEYS as u64) as u16;
+    let mut gets: Vec<u16> = (0..once).collect();
+    let need = (10 * cap) as usize + rng.range(0, 400) as usize;
+    let mut k2 = 3000u16;
+    while gets.len() < need {
+        // an even number of lookups of a key leaves every parity as it was
+        let k = if rng.chance(1, 3) { rng.below(once as u64) as u16 } else { k2 };
+        k2 += 1;
+        gets.push(k);
+        gets.push(k);
+    }
+    // local shuffling (swaps at short distance keep most "once" lookups first)
+    for i in 0..gets.len() {
+        if rng.chance(1, 4) {
+            let j = (i + rng.below(8) as usize).min(gets.len() - 1);
+            gets.swap(i, j);
+        }
+    }
+    for (n, k) in gets.iter().enumerate() {
+        ops.push(OpRec::plain(Op::Get { k: *k }));
+        if kind == Kind::Sync && (sync_every || n % 50 == 49) {
+            ops.push(OpRec::plain(Op::Sync));
+        }
+        if rng.chance(1, 40) {
+            ops.push(OpRec::plain(Op::Insert { k: 2000 + rng.below(300) as u16, vid: next_vid, w: 1 }));
+            next_vid += 1;
+        }
+    }
+    if kind == Kind::Sync {
+        ops.push(OpRec::plain(Op::Sync));
+        ops.push(OpRec::plain(Op::Sync));
+    }
+    // the cache still works afterwards
+    for _ in 0..rng.range(5, 40) {
+        let k = 2000 + rng.below(400) as u16;
+        ops.push(OpRec::plain(Op::Get { k }));
+        ops.push(OpRec::plain(Op::Insert { k, vid: next_vid, w: 1 }));
+        next_vid += 1;
+    }
+    if kind == Kind::Sync {
+        ops.push(OpRec::plain(Op::Sync));
+    }
+    Trace {
+        engine: Engine::Seq,
+        config: cfg,
+        threads: vec![ops],
+        extra: Vec::new(),
+        schedule: Vec::new(),
+        sched: None,
+        prologue: Vec::new(),
+        callback_faults: CallbackFaults::default(),
+        origin: Some(Origin { seed, run, population: pop.name().to_string() }),
     }
 }
